@@ -198,11 +198,24 @@ func C01(c *fw.Ctx) {
 	exprForms(leaves, true, func(n *model.N) { r1 = append(r1, n) })
 	rd1 := append(append([]*model.N{}, leaves...), r1...)
 	exprForms(rd1, true, func(n *model.N) { r2 = append(r2, n) })
-	if c.Quick() {
-		// quick: depth-3 roots are the binary / unary / suffix forms over depth-2 children of the reduced set, first 120 children
-		if len(r2) > 120 {
-			r2 = r2[:120]
+	{
+		// depth-3 roots are the binary / unary / suffix forms over depth-2 children of the reduced set: an
+		// evenly spread 120 (quick) / 700 (thorough) of them -- all pairs of all of them would be 4 * 10^8 trees
+		want := 120
+		if !c.Quick() {
+			want = 700
 		}
+		if c.Tier == "deep" {
+			want = 2000
+		}
+		if len(r2) > want {
+			var pick []*model.N
+			for i := 0; i < want; i++ {
+				pick = append(pick, r2[i*len(r2)/want])
+			}
+			r2 = pick
+		}
+		c.Bound("depth3_children", len(r2))
 	}
 	n3 := 0
 	exprForms(r2, true, func(n *model.N) {
